@@ -245,16 +245,16 @@ def rule_S6(ctx):
 
 def run(ctx):
     ctx.assume("networkx DiGraph.add_node / add_edge identify nodes by equality of the key")
-    rule_S1(ctx)
-    rule_S2(ctx)
-    rule_S3(ctx)
-    rule_S4(ctx)
-    rule_S5(ctx)
-    rule_S6(ctx)
+    ctx.soft(rule_S1)
+    ctx.soft(rule_S2)
+    ctx.soft(rule_S3)
+    ctx.soft(rule_S4)
+    ctx.soft(rule_S5)
+    ctx.soft(rule_S6)
     # the clade sets that are counted: tree.utils.get_clades / _clades against the reference semantics
     from ._treespec import rule_TS
 
-    n = rule_TS(ctx, owners=["tree.utils", "process_trace.consensus", "process_trace.process_trace"])
+    n = ctx.soft(rule_TS, owners=["tree.utils", "process_trace.consensus", "process_trace.process_trace"])
     ctx.rule_min["TS"] = 6
     # weighted support is built from the unique-topology dictionary: each topology's count and best score must be
     # what the trace says (same rule objects as C11.A2), keyed by Tree equality (C03.I1 / I2)
